@@ -5,6 +5,7 @@
 mod data;
 mod eval;
 mod exec;
+mod gen_query;
 mod gen_stmt;
 mod gen_typed;
 mod model_agg;
@@ -77,6 +78,8 @@ fn main() {
         "C03" => dispatch(props::c03::C03, &args),
         "C04" => dispatch(props::c04::C04, &args),
         "C05" => dispatch(props::c05::C05, &args),
+        "C06" => dispatch(props::c06::C06, &args),
+        "C07" => dispatch(props::c07::C07, &args),
         "C10" => dispatch(props::c10::C10, &args),
         "C12" => dispatch(props::c12::C12, &args),
         "C13" => dispatch(props::c13::C13, &args),
